@@ -1,6 +1,6 @@
 (* Property C06 — a partitioned (parallel) data set reads as the whole data set. *)
-From Coq Require Import ZArith Bool Arith List Permutation.
-From FC Require Import Model.Merge Model.Structured Proofs.MergeP Proofs.StructuredP Proofs.PMergeP Model.Paths Proofs.PathsP.
+From Coq Require Import QArith ZArith Bool Arith List Permutation.
+From FC Require Import Model.Merge Model.Structured Proofs.MergeP Proofs.StructuredP Proofs.PMergeP Model.Paths Proofs.PathsP Proofs.OrdinatesP.
 Import ListNotations.
 Local Open Scope nat_scope.
 
@@ -168,6 +168,23 @@ Print Assumptions C06_pieces_next_to_index.
 Theorem C06_smerge_dtype : (forall d, smerge_dtype_fixed d = d) /\ smerge_dtype_pinned I32 <> I32.
 Proof. split; [reflexivity|discriminate]. Qed.
 Print Assumptions C06_smerge_dtype.
+
+(* ---- ordinates of a parallel rectilinear grid (.pvtr) --------------------------------------------------------------- *)
+(* the assembly loop of PVTRReader (astep is the loop body of the model's pvtr_ordinates, which is run against the reader on
+   every .pvtr file of the check): pieces that hold the restrictions of ONE global ordinate vector g to consecutive index
+   ranges — any number of pieces, any split — are assembled into exactly g *)
+Theorem C06_pvtr_ordinates_assembled : forall (g : qvec) (ns : list nat),
+  ns <> [] -> length g = S (total ns) ->
+  fold_left astep (cut g 0 ns) (Some (repeat 0%Q (length g)), 0) = (Some g, total ns).
+Proof. exact ordinates_assembled. Qed.
+Print Assumptions C06_pvtr_ordinates_assembled.
+
+Example C06_pvtr_ordinates_nonvacuous :
+  fold_left astep (cut [0#1; 1#2; 1#1; 3#1; 7#1]%Q 0 [2; 1; 1]) (Some (repeat 0%Q 5), 0) = (Some [0#1; 1#2; 1#1; 3#1; 7#1]%Q, 4) /\
+  cut [0#1; 1#2; 1#1; 3#1; 7#1]%Q 0 [2; 1; 1] = [[0#1; 1#2; 1#1]; [1#1; 3#1]; [3#1; 7#1]]%Q /\
+  (* pieces that disagree on the shared ordinate: the later piece wins, nothing is reported *)
+  fold_left astep [[0#1; 1#1]; [5#1; 2#1]]%Q (Some (repeat 0%Q 3), 0) = (Some [0#1; 5#1; 2#1]%Q, 2).
+Proof. exact ordinates_example. Qed.
 
 Example C06_nonvacuous :
   wf 2 wit_quad /\ wf 2 wit_tri /\
